@@ -149,7 +149,7 @@ theorem evaluateRoute_raises (e r) : Raises (evaluateRoute e r) notExpr := by
   raises_walk []
 
 theorem stageNext_raises (k idx e o acc) : Raises (stageNext k idx e o acc) notExpr := by
-  unfold stageNext
+  unfold stageNext stageTarget
   raises_walk [evaluateRoute_raises _ _]
 
 theorem fireTransition_raises (k idx ec acc e) : Raises (fireTransition E k idx ec acc e) notExpr := by
@@ -165,7 +165,7 @@ theorem makeTaskContext_raises (k idx r) : Raises (makeTaskContext k idx r) notE
   raises_walk []
 
 theorem ensureRecord_raises (k s r ev) : Raises (ensureRecord E k s r ev) notExpr := by
-  unfold ensureRecord
+  unfold ensureRecord firstRecord recordFromStaged
   raises_walk [addTaskState_raises E _ _ _]
 
 theorem noteEvent_raises (k s ev) : Raises (noteEvent k s ev) notExpr := by
